@@ -5,7 +5,7 @@ PROP = {
     "lean_modules": ["SwimVerif.Model.TimeoutCoord", "SwimVerif.Proofs.TimeoutCoord",
                      "SwimVerif.Generated.TimeoutConsts", "SwimVerif.Model.InactivityRt",
                      "SwimVerif.Proofs.InactivityRt", "SwimVerif.Model.CoordThreads", "SwimVerif.Model.InactivityDl",
-                     "SwimVerif.Proofs.InactivityDl"],
+                     "SwimVerif.Proofs.InactivityDl", "SwimVerif.Model.CoordPoll", "SwimVerif.Proofs.CoordPoll"],
     "engines": [
         {"name": "coord-random", "crate": "core", "bin": "sv-c17", "machine": "c17",
          "features": [], "cases": {"quick": 6000, "thorough": 600000}, "min_shard": 1000},
